@@ -188,7 +188,7 @@ fn tx_begin_reader_and_drop() {
 }
 
 // ---- C06-Ob2: a writer that frees and allocates and is then dropped leaves shared state and file untouched
-// @ob props=C06,C03 tier=quick cap=600 fns=Tx::new,TxInner::drop,TxFreelist::free,TxFreelist::allocate bound="committed id 7; writer frees run (3,1), allocates 300 bytes (2 pages) and 40 bytes; 2 pending lists any ids <= 7; one reader" unwind=5
+// @ob props=C06 tier=quick cap=900 fns=Tx::new,TxInner::drop,TxFreelist::free,TxFreelist::allocate bound="committed id 7; writer frees run (3,1), allocates 300 bytes (2 pages) and 40 bytes; 2 pending lists any ids <= 7; one reader" unwind=5
 #[kani::proof]
 #[kani::unwind(5)]
 fn tx_abandoned_writer_no_trace() {
@@ -329,7 +329,7 @@ fn untouched_pages_ok() {
 }
 
 // ---- C02-Ob1 / C05 / C10-Ob4: the write plan of a commit
-// @ob props=C02,C05,C10,C06 tier=quick cap=900 mem=16 fns=Tx::commit,TxInner::write_data,TxFreelist::free,TxFreelist::allocate,Freelist::pages,Freelist::size,Page::freelist_mut,Page::meta_mut,Meta::hash_self,DBInner::meta bound="12-page file, one dirty 40-byte page, free set {4,5}, no reader, no growth, strict mode off" unwind=260
+// @ob props=C02,C10 tier=quick cap=900 mem=16 fns=Tx::commit,TxInner::write_data,TxFreelist::free,TxFreelist::allocate,Freelist::pages,Freelist::size,Page::freelist_mut,Page::meta_mut,Meta::hash_self,DBInner::meta bound="12-page file, one dirty 40-byte page, free set {4,5}, no reader, no growth, strict mode off" unwind=260
 #[kani::proof]
 #[kani::unwind(260)]
 fn tx_commit_write_plan() {
@@ -631,27 +631,27 @@ macro_rules! fault_harness {
     };
 }
 
-// @ob props=C11,C06 tier=thorough cap=1200 mem=16 fns=Tx::commit,TxInner::write_data bound="failing call 0: file.metadata()" unwind=520
+// @ob props=C11 tier=thorough cap=1200 mem=16 fns=Tx::commit,TxInner::write_data bound="failing call 0: file.metadata()" unwind=520
 fault_harness!(tx_commit_fault_00_metadata, 0, 0);
-// @ob props=C11,C06 tier=thorough cap=1200 mem=16 fns=Tx::commit,TxInner::write_data bound="failing call 1: seek to the first dirty page" unwind=520
+// @ob props=C11 tier=thorough cap=1200 mem=16 fns=Tx::commit,TxInner::write_data bound="failing call 1: seek to the first dirty page" unwind=520
 fault_harness!(tx_commit_fault_01_seek, 1, 0);
-// @ob props=C11,C06 tier=quick cap=1200 mem=16 fns=Tx::commit,TxInner::write_data,DBInner::meta bound="failing call 2: write of the first dirty page (error)" unwind=520
+// @ob props=C11 tier=quick cap=1200 mem=16 fns=Tx::commit,TxInner::write_data,DBInner::meta bound="failing call 2: write of the first dirty page (error)" unwind=520
 fault_harness!(tx_commit_fault_02_write, 2, 0);
-// @ob props=C11,C06 tier=thorough cap=1200 mem=16 fns=Tx::commit,TxInner::write_data,DBInner::meta bound="call 2 is a short write of 8 bytes, the next call fails" unwind=520
+// @ob props=C11 tier=thorough cap=1200 mem=16 fns=Tx::commit,TxInner::write_data,DBInner::meta bound="call 2 is a short write of 8 bytes, the next call fails" unwind=520
 fault_harness!(tx_commit_fault_02_short, 2, 8);
-// @ob props=C11,C06 tier=thorough cap=1200 mem=16 fns=Tx::commit,TxInner::write_data bound="failing call 4: write of the free-list page" unwind=520
+// @ob props=C11 tier=thorough cap=1200 mem=16 fns=Tx::commit,TxInner::write_data bound="failing call 4: write of the free-list page" unwind=520
 fault_harness!(tx_commit_fault_04_write, 4, 0);
-// @ob props=C11,C06 tier=thorough cap=1200 mem=16 fns=Tx::commit,TxInner::write_data bound="failing call 5: flush after the data pages" unwind=520
+// @ob props=C11 tier=thorough cap=1200 mem=16 fns=Tx::commit,TxInner::write_data bound="failing call 5: flush after the data pages" unwind=520
 fault_harness!(tx_commit_fault_05_flush, 5, 0);
-// @ob props=C11,C06 tier=quick cap=1200 mem=16 fns=Tx::commit,TxInner::write_data,DBInner::meta bound="failing call 6: sync after the data pages" unwind=520
+// @ob props=C11 tier=quick cap=1200 mem=16 fns=Tx::commit,TxInner::write_data,DBInner::meta bound="failing call 6: sync after the data pages" unwind=520
 fault_harness!(tx_commit_fault_06_sync, 6, 0);
-// @ob props=C11,C06 tier=thorough cap=1200 mem=16 fns=Tx::commit,TxInner::write_data bound="failing call 7: seek to the header slot" unwind=520
+// @ob props=C11 tier=thorough cap=1200 mem=16 fns=Tx::commit,TxInner::write_data bound="failing call 7: seek to the header slot" unwind=520
 fault_harness!(tx_commit_fault_07_seek, 7, 0);
-// @ob props=C11,C06 tier=quick cap=1200 mem=16 fns=Tx::commit,TxInner::write_data,DBInner::meta bound="failing call 8: write of the header page (error, nothing written)" unwind=520
+// @ob props=C11 tier=quick cap=1200 mem=16 fns=Tx::commit,TxInner::write_data,DBInner::meta bound="failing call 8: write of the header page (error, nothing written)" unwind=520
 fault_harness!(tx_commit_fault_08_write, 8, 0);
-// @ob props=C11,C06 tier=quick cap=1200 mem=16 fns=Tx::commit,TxInner::write_data,DBInner::meta,Meta::valid bound="call 8 (header page) is a short write of 8 bytes, the next call fails: torn header" unwind=520
+// @ob props=C11 tier=quick cap=1200 mem=16 fns=Tx::commit,TxInner::write_data,DBInner::meta,Meta::valid bound="call 8 (header page) is a short write of 8 bytes, the next call fails: torn header" unwind=520
 fault_harness!(tx_commit_fault_08_short, 8, 8);
-// @ob props=C11,C06 tier=thorough cap=1200 mem=16 fns=Tx::commit,TxInner::write_data,DBInner::meta bound="failing call 9: flush after the header write" unwind=520
+// @ob props=C11 tier=thorough cap=1200 mem=16 fns=Tx::commit,TxInner::write_data,DBInner::meta bound="failing call 9: flush after the header write" unwind=520
 fault_harness!(tx_commit_fault_09_flush, 9, 0);
-// @ob props=C11,C06 tier=quick cap=1200 mem=16 fns=Tx::commit,TxInner::write_data,DBInner::meta bound="failing call 10: the final sync (header already handed to the OS)" unwind=520
+// @ob props=C11 tier=quick cap=1200 mem=16 fns=Tx::commit,TxInner::write_data,DBInner::meta bound="failing call 10: the final sync (header already handed to the OS)" unwind=520
 fault_harness!(tx_commit_fault_10_sync, 10, 0);
